@@ -49,6 +49,17 @@ func convert(v any, pt string) (any, convStatus) {
 	if pt == "any" {
 		return v, convOK
 	}
+	if strings.HasPrefix(pt, "*") {
+		// pointer parameters take the pointer the data holds ("values from template data retain
+		// their original types"); anything else into a pointer parameter is not documented
+		if v != nil && ptrTypeOf(v) == pt {
+			return v, convOK
+		}
+		return nil, convUnspecified
+	}
+	if isPtr(v) {
+		return nil, convUnspecified // a pointer into a value parameter: not documented
+	}
 	switch pt {
 	case "string":
 		switch x := v.(type) {
@@ -311,7 +322,7 @@ func init() {
 	reg(&fnSpec{name: "typ", params: []string{"any"},
 		impl: func(v any) string { return fmt.Sprintf("%T", v) },
 		call: func(in []any) (any, error) { return fmt.Sprintf("%T", in[0]), nil }})
-	reg(&fnSpec{name: "show", params: []string{"any", "any"},
+	reg(&fnSpec{name: "show", params: []string{"any", "any"}, accepts: func(v any) bool { return !isPtr(v) }, // a pointer prints as an address
 		impl: func(v, w any) string { return fmt.Sprint(v) + "-" + fmt.Sprint(w) },
 		call: func(in []any) (any, error) { return fmt.Sprint(in[0]) + "-" + fmt.Sprint(in[1]), nil }})
 	reg(&fnSpec{name: "joinv", params: []string{"string"}, variadic: true,
@@ -383,6 +394,9 @@ func init() {
 	for k := range funcs {
 		fnNames = append(fnNames, k)
 	}
+	sort.Strings(fnNames)
+	registerPointerFuncs()
+	fnNames = append(fnNames, "addp", "fmtDate", "incp", "pname", "upp")
 	sort.Strings(fnNames)
 	// the signature product (sig_test.go) is generated by its own family and is not part of
 	// fnNames (random pipe stages, per-function error enumeration)
